@@ -5,6 +5,7 @@ mod pathgen;
 mod partial;
 mod idem;
 mod globsyntax;
+mod filter;
 use corrlib::*;
 use pathgen::*;
 use serde_json::json;
@@ -555,7 +556,8 @@ pub fn run(rep: &mut Report) {
     partial::run(rep);
     idem::run(rep);
     globsyntax::run(rep);
-    rep.notes.push("Java/Kotlin keys (map_partial_path): see part Partial (src/partial.rs); in the streams above exclusion markers and keys whose first character is a cased non-ASCII letter are outside the generated domain; relative keys without source dir are resolved against the process cwd, which the harness sets to <tree>/cw".into());
+    filter::run(rep);
+    rep.notes.push("Java/Kotlin keys (map_partial_path): see part Partial (src/partial.rs); in the streams above (exclusion markers: part Filter, src/filter.rs) keys whose first character is a cased non-ASCII letter are outside the generated domain; relative keys without source dir are resolved against the process cwd, which the harness sets to <tree>/cw".into());
 }
 
 pub fn replay(rep: &mut Report, case: &serde_json::Value) {
@@ -588,6 +590,7 @@ pub fn replay(rep: &mut Report, case: &serde_json::Value) {
         op if op.starts_with("c11.partial") => partial::replay(rep, case),
         op if op.starts_with("c11.idem") => idem::replay(rep, case),
         op if op.starts_with("c11.glob") => globsyntax::replay(rep, case),
+        op if op.starts_with("c11.filter") => filter::replay(rep, case),
         _ => {}
     }
 }
